@@ -864,7 +864,8 @@ def unit_ocra(ctx):
     if ctx.params.get("edge"):
         # The three cases that abort a debug build on the current tree come first: a crashed worker loses the class
         # counts of its segment, so nothing else may precede them in this job.
-        # (1) p and s adjacent inside one allocation (fields of a caller's struct): admissible, trips F16's self-check
+        # (1) p and s adjacent inside one allocation (fields of a caller's struct): admissible; deterministic witness of
+        #     DESIGN.md 4 F16 (botpOCRAStepS's debug self-check compared p with s over botpOCRA_keep() octets; repaired in /repo)
         cases.append({"op": "OCRA", "api": "adjacent-p-s", "suite": "OCRA-1:HOTP-HBELT-6:QN08-PHBELT-S064", "key": rb(rng, 32),
                       "q": b"12345678", "p": rb(rng, 32), "s": rb(rng, 64)})
         # (2, 3) t is "don't care" when the suite has no T field: botp.h only requires t != TIME_ERR if the suite uses t
@@ -888,23 +889,8 @@ def unit_ocra(ctx):
         return lib.alloc(0)      # a parameter the suite does not use: zero-size block, any access is an ASan report
 
     def place(ctr, p, s):
-        """Buffers for (ctr, p, s).  botpOCRAStepS's debug self-check (botp.c:531, DESIGN.md 4 F16, a C07 item) compares
-        p with s over botpOCRA_keep() octets and aborts for admissible, disjoint buffers that merely lie close to each
-        other in the heap.  Where malloc puts two buffers is not an input of C03, so p is re-allocated until that
-        self-check cannot fire (otherwise dozens of aborts per run drown the value checks); the defect itself is
-        demonstrated, deterministically, by the case 'ocra:adjacent-p-s' below."""
-        cp = lib.mk(ctr) if ctr is not None else nul()
-        P, S = [], []
-        for i in range(400):        # allocators hand out neighbours in either direction: alternate fresh candidates
-            if i % 2 == 0:
-                S.append(lib.mk(s) if s else nul())
-            else:
-                P.append(lib.mk(p) if p is not None else nul())
-            for pp in P:
-                for sp in S:
-                    if not s or pp + len(s) <= sp or pp >= sp + keep:
-                        return cp, pp, sp
-        raise Harness("could not place p and s apart")
+        """fresh exact-size buffers for (ctr, p, s); a parameter the suite does not use is a zero-size block"""
+        return (lib.mk(ctr) if ctr is not None else nul(), lib.mk(p) if p is not None else nul(), lib.mk(s) if s else nul())
 
     for c in cases:
         api, suite, key = c["api"], c["suite"], c["key"]
